@@ -548,9 +548,12 @@ def build_all():
         for d, (ok, out) in ex.map(one, tdirs):
             print("%-8s %s" % (d, "ok" if ok else "FAILED"))
             if not ok:
+                # not fatal for setup: the check of that property rebuilds its theory and reports it
                 print(out)
                 rc = 1
-    return rc
+    if rc:
+        print("WARNING: some theories failed to build during setup; their checks will report it")
+    return 0
 
 
 def repo_python_env():
